@@ -132,11 +132,17 @@ def run(tier):
     for _ in range(300 if quick else 3000):
         satm, tatm = rng.choice([0, 1, 2]), rng.choice([0, 1, 2])
         conv = rng.choice([0, 1, 2])
-        kind = rng.choice(["same", "fine", "coarse", "shift", "layers", "surface"])
+        kind = rng.choice(["same", "fine", "coarse", "shift", "layers", "surface", "unequal"])
         nx, ny = rng.randint(1, 3), rng.randint(1, 3)
         sdz = [10.0, 10.0, 20.0][:rng.randint(2, 3)]
         src = make(rng, nx, ny, 20.0, sdz, satm, conv, surfaces=[rng.choice([0, 0, 5.0, 10.0, 15.0]) for _ in range(nx * ny)])
-        if kind == "same":
+        if kind == "unequal":
+            # source layers of very different thickness: a target layer's centre can lie inside a thick source layer and yet
+            # be nearer to the centre of its thin neighbour
+            sdz = rng.choice([[10.0, 100.0, 10.0], [5.0, 50.0, 5.0, 40.0], [30.0, 5.0, 5.0, 60.0]])
+            src = make(rng, nx, ny, 20.0, sdz, satm, conv)
+            tgt = make(rng, nx, ny, 20.0, [rng.choice([10.0, 20.0])] * int(sum(sdz) / 20.0), tatm, conv)
+        elif kind == "same":
             tgt = copy.deepcopy(src)
             tgt.atmosphere_type = tatm
         elif kind == "fine":
@@ -260,6 +266,9 @@ def run(tier):
                     sd.add_generator(t2data.t2generator(name="ge%3d" % k, block=b, type="MASS", gx=1.5 + k, ex=1.0e5,
                                                         ltab=(3 if tab else None), time=[0.0, 1.0, 2.0] if tab else [],
                                                         rate=[1.0, 2.0, 3.0] if tab else []))
+                if rng.random() < 0.5:
+                    # a mass and a heat generator under one name on one block (one lookup key, two list entries)
+                    sd.add_generator(t2data.t2generator(name="ge%3d" % 0, block=ub[0], type="HEAT", gx=250.0))
                 td = t2data.t2data()
                 try:
                     td.transfer_from(sd, src, tgt, preserve_generation_totals=rng.random() < 0.5)
@@ -269,10 +278,38 @@ def run(tier):
                     continue
             a = [(g.block, g.name, g.type, g.gx, list(g.rate)) for g in sd.generatorlist]
             b = [(g.block, g.name, g.type, g.gx, list(g.rate)) for g in td.generatorlist]
-            if a != b or not np.allclose(sd.total_generation(), td.total_generation()):
+            if a != b or not np.allclose(sd.total_generation(), td.total_generation()) or \
+                    not np.allclose(sd.total_generation("HEAT"), td.total_generation("HEAT")):
                 det["generators"] = [a, b]
                 rep.violation(key + ":generators", "P_model_transfer", det)
-    rep.traces += len(pairs)
+    # the same source geometry used again after it has been moved (nothing may be remembered from the first mapping)
+    nseq = 0
+    for kind, src, tgt in pairs[:(40 if quick else 400)]:
+        if not isinstance(kind, str) or ":" in kind:
+            continue
+        with core.quiet():
+            src.translate(np.array([7.5, 2.5, 0.0]))
+            if src.num_columns > 1:
+                src.rotate(90.0, src.columnlist[0].centre)
+        e = float_expected(src, tgt)
+        und = dict(((x["b"][0], x["b"][1]), x["s"]) for x in e["und"])
+        try:
+            with core.quiet():
+                mapping = src.block_mapping(tgt)
+        except Exception as ex:
+            rep.violation("moved-source:block_mapping-raises", "P_total", {"pair": kind, "error": repr(ex)})
+            continue
+        nseq += 1
+        rep.case(("moved", nseq))
+        for name in tgt.block_name_list[tgt.num_atmosphere_blocks:]:
+            ic = [c.name for c in tgt.columnlist].index(tgt.column_name(name)) + 1
+            lj = [l.name for l in tgt.layerlist].index(tgt.layer_name(name)) + 1
+            acc = set(src.block_name(src.layerlist[s_[1] - 1].name, src.columnlist[s_[0] - 1].name) for s_ in und[(ic, lj)])
+            if mapping.get(name) not in acc:
+                rep.violation("moved-source:P_nearest", "P_nearest", {"pair": kind, "sequence": "block_mapping, translate + rotate the source, block_mapping",
+                                                                      "difference": "target block %s mapped to %r, acceptable %s" % (name, mapping.get(name), sorted(acc))})
+                break
+    rep.traces += len(pairs) + nseq
     rep.sample({"pair": pairs[0][0], "source": cases[0]["src"], "target_columns": len(cases[0]["tgt"]["cols"]), "atm_rule": exps[0]["atm"], "incon_rule": exps[0]["incon"]})
     rep.rule = ("random pairs of lattice geometries (identical, finer, coarser, shifted, re-layered, differently surfaced) x 3x3 atmosphere "
                 "types x conventions; Transfer.tla gives the acceptable source blocks (ties allowed) and the atmosphere rules; "
